@@ -1,4 +1,5 @@
 import Model.TlsAuth
+import Model.TlsAuthSess
 import Driver.Util
 namespace Driver.C20
 open Util TlsAuth
@@ -208,6 +209,36 @@ def parseTlsOp (ws : List String) : Option TlsOp :=
 
 def credSent (t : Trace) : Bool := t.sent.any (fun x => match x with | .authResponse _ => true | _ => false)
 
+/-- the scenario of the session ops: `static=<auth> prov=<provider> n<h>=<class hex | rdy>… <p|c><h>…`
+    (nodes: `n2=<hex>` = the node at host 2 demands authentication advertising that class and accepts the first
+    token, `n2=rdy` = it demands none; dials in order: `p<h>` = pool connection (Session.connect), `c<h>` = dial by
+    the control connection (a copy of the session's connection config)) -/
+structure SessOp where
+  cfg : AuthCfg
+  dials : List (String × Via × Nat × Spec.Node)
+
+def parseSessOp (ws : List String) : Option SessOp :=
+  match ws with
+  | st :: pv :: rest => do
+    let st ← parseAuth (← dropPrefix "static=" st)
+    let pv ← parseProvider (← dropPrefix "prov=" pv)
+    let nodeWs := rest.filter (fun w => w.startsWith "n")
+    let dialWs := rest.filter (fun w => !w.startsWith "n")
+    let nodes ← nodeWs.mapM (fun w => match (w.drop 1).toString.splitOn "=" with
+      | [k, c] => do
+        let k ← k.toNat?
+        if c == "rdy" then pure (k, Spec.Node.noauth) else do
+          let c ← parseHex c
+          pure (k, Spec.Node.auth c)
+      | _ => none)
+    let dials ← dialWs.mapM (fun w => do
+      let via ← (if w.startsWith "p" then some Via.pool else if w.startsWith "c" then some Via.control else none)
+      let h ← (w.drop 1).toString.toNat?
+      let n ← nodes.find? (fun e => e.1 == h)
+      pure (w, via, h, n.2))
+    if dials.isEmpty then none else pure { cfg := { static := st, provider := pv }, dials := dials }
+  | _ => none
+
 def parseDocCfg (s : String) : Option (Option Bool) :=
   match s with
   | "nil" => some none | "false" => some (some false) | "true" => some (some true) | _ => none
@@ -221,7 +252,8 @@ def parseDocCfg (s : String) : Option (Option Bool) :=
   hs <auth> <frames…>                        → sent=… calls=… outcome=…   (process-fatal: crash:<function> sent=… calls=…)
   hsx host=<k> static=<auth> prov=<provider> <frames…>        → sent=… calls=… prov=… outcome=…  (Conn.init + start-up)
   newsession host=<k> static=<auth> prov=<provider> <frames…> → dials=… post=… sent=… (NewSession with a scripted dialer)
-  doc <file> <nil|false|true> <false|true>   → verify | noverify | missing (documented table) -/
+  doc <file> <nil|false|true> <false|true>   → verify | noverify | missing (documented table)
+  sessx / sessauth static=<auth> prov=<provider> n<h>=<class|rdy>… <p|c><h>…  → per connection, ` | `-separated -/
 def step (_ : Unit) (ws : List String) : Unit × String :=
   ((), match ws with
   | ["tls", cfg, ehv, ca, cert, key, spare] =>
@@ -299,6 +331,23 @@ def step (_ : Unit) (ws : List String) : Unit × String :=
         some s!"{d} proceeded={bit go} cred={bit cred}") with
       | some l => " | ".intercalate l
       | none => "bad-op"
+    | none => "bad-op"
+  -- several connections of ONE session, model vs code: the full trace of every connection in order
+  | "sessx" :: rest => match parseSessOp rest with
+    | some o =>
+      let ts := session o.cfg (o.dials.map (fun d => ⟨d.2.1, d.2.2.1, d.2.2.2.script⟩))
+      " | ".intercalate ((o.dials.zip ts).map (fun (d, t) =>
+        showTrace t (isCustom (Spec.credentials o.cfg d.2.2.1)) true (d.1 ++ " ")))
+    | none => "bad-op"
+  -- C20_auth_per_host / C20_session_observations: the SPECIFICATION side (Spec.expectFor: the host's own
+  -- credentials, its own allow-list, nothing carried across connections)
+  | "sessauth" :: rest => match parseSessOp rest with
+    | some o =>
+      if o.cfg.static.isSome && o.cfg.provider.isSome then "bad-op" else
+      " | ".intercalate (o.dials.map (fun d =>
+        let e := Spec.expectFor o.cfg d.2.2.1 d.2.2.2
+        s!"{d.1} prov={showList (e.prov.map toString)} tok={match e.token with | some t => toHex t | none => "none"} " ++
+          (if e.ready then "ready" else "refused")))
     | none => "bad-op"
   -- C20_session_config: both Authenticator and AuthProvider ⇒ refused before anything is dialled
   | "sesscfg" :: h :: st :: pv :: fs => match parseConn h st pv, fs.mapM parseFrame with
